@@ -307,17 +307,53 @@ def run_search(inst, which, variant=None):
   variant['keep'] = keep
   box = {}
 
+  events = []
+
   def thunk():
-    from matched_markets.methodology import tbrmatchedmarkets
+    from matched_markets.methodology import tbrmatchedmarkets, _verif_trace
     data, par, ids = build_objects(inst, variant)
     box['ids'], box['par'] = ids, par
     mmo = tbrmatchedmarkets.TBRMatchedMarkets(data, par)
-    return mmo.exhaustive_search() if which == 'exh' else mmo.greedy_search()
+    _verif_trace.set_sink(lambda e, f: events.append((e, f)))
+    try:
+      return mmo.exhaustive_search() if which == 'exh' else mmo.greedy_search()
+    finally:
+      _verif_trace.set_sink(None)
 
   def after():
     if inst.get('perturb_after'):
       perturb_caller_objects(box['par'], keep['df'])
-  return _outcome(inst, lambda: box['ids'], which, scale, thunk, after)
+  out = _outcome(inst, lambda: box['ids'], which, scale, thunk, after)
+  if not variant.get('no_events'):
+    inst['events_' + which] = project_events(events, box.get('ids'))
+  return out
+
+
+def project_events(events, ids):
+  """Hook events (geo indices) -> contract vocabulary (geo numbers). The index order comes from the start event."""
+  out = {'started': False, 'events': [], 'heap_pushes': 0}
+  if ids is None:
+    return out
+  num = {str(i): g + 1 for g, i in enumerate(ids)}
+  index = None
+  for name, f in events:
+    if name in ('exh_start', 'greedy_start'):
+      index = [num.get(str(x), 0) for x in f['index']]
+      out['started'] = True
+      if name == 'greedy_start':
+        out['events'].append({'e': 'start', 'k': f['k'], 't': sorted(index[i] for i in f['trt']),
+                              'c': sorted(index[i] for i in f['ctl']), 'v': 'needs' if f['needs_matching'] else 'free'})
+    elif name == 'heap_push':
+      out['heap_pushes'] += 1
+    elif index is not None and name == 'exh_trt':
+      out['events'].append({'e': 'trt', 't': sorted(index[i] for i in f['group']), 'c': [], 'v': f['verdict']})
+    elif index is not None and name == 'exh_ctl':
+      out['events'].append({'e': 'ctl', 't': sorted(index[i] for i in f['trt']), 'c': sorted(index[i] for i in f['ctl']),
+                            'v': f['verdict']})
+    elif index is not None and name.startswith('greedy_'):
+      out['events'].append({'e': name[7:], 'k': f['k'], 't': sorted(index[i] for i in f.get('trt', [])),
+                            'c': sorted(index[i] for i in f.get('ctl', [])), 'v': ''})
+  return out
 
 
 def run_shared(a, b):
@@ -461,6 +497,7 @@ FAMILIES = {
     'C09': [('degenerate', 0.45), ('tiny', 0.25), ('constraints', 0.3)],
     'C13': [('random', 0.6), ('constraints', 0.4)],
     'C14': [('random', 0.7), ('constraints', 0.3)],
+    'C11': [('random', 0.5), ('constraints', 0.5)],
 }
 
 
@@ -677,3 +714,90 @@ def describe(res, owner):
   res.assumptions += ['numeric facts (ranks of score tuples, budget verdicts, optimistic budget classes, impact order) come '
                       'from the independent numpy/scipy oracle harness/oracle.py; scipy t/F quantiles are trusted',
                       'design space = designs over the admitted geos (DESIGN.md section 4 C03)']
+
+
+# ---------------------------------------------------------------------------------------------- step level (hooks)
+def count_of(inst):
+  """count_max_designs() of the real code on a fresh object (-1 when it raises)."""
+  try:
+    from matched_markets.methodology import tbrmatchedmarkets
+    data, par, _ = build_objects(inst, {})
+    return int(tbrmatchedmarkets.TBRMatchedMarkets(data, par).count_max_designs())
+  except Exception:  # pylint: disable=broad-except
+    return -1
+
+
+def _step_chunk(args):
+  idx, label, records = args
+  rundir = tlc.run_dir('%s_step%02d' % (label, idx))
+  path = os.path.join(rundir, 'instances.json')
+  with open(path, 'w') as f:
+    json.dump({'instances': records}, f)
+  r = tlc.run_tlc('MMStepTrace', TRACE_CFG, rundir, workers=1, env={'TRACE_FILE': path}, timeout=3000,
+                  java_opts=['-Xmx3g', '-XX:+UseSerialGC', '-XX:TieredStopAtLevel=1'])
+  if r.returncode != 0:
+    return {'error': 'TLC failed on MMStepTrace chunk %d (exit %s): %s' % (idx, r.returncode, r.stdout[-1500:])}
+  return {'verdicts': [v for v in r.json_lines() if isinstance(v, dict) and 'fails' in v],
+          'distinct': r.distinct, 'generated': r.generated}
+
+
+def judge_steps(res, insts, label, nchunks=8):
+  """MMStepTrace over the recorded hook events of the exhaustive search. Returns id -> verdict."""
+  records = []
+  for i in insts:
+    rec = to_tla(i)
+    ev = i.get('events_exh') or {'started': False, 'events': []}
+    rec['events'] = [{'e': e['e'], 't': e['t'], 'c': e['c'], 'v': e['v']} for e in ev['events']]
+    rec['started'] = bool(ev['started'])
+    rec['count'] = i.get('count', -1)
+    records.append(rec)
+  nchunks = max(1, min(nchunks, len(records) // 12 or 1))
+  outs = par_mod.pmap(_step_chunk, [(c, label, records[c::nchunks]) for c in range(nchunks)], nproc=nchunks, chunksize=1)
+  verdicts = {}
+  for o in outs:
+    if 'error' in o:
+      raise tlc.MachineryError(o['error'])
+    res.states += o['distinct']
+    res.transitions += o['generated']
+    for v in o['verdicts']:
+      verdicts[v['id']] = v
+  res.tlc_runs.append({'label': 'MMStepTrace.' + label, 'chunks': nchunks, 'instances': len(records)})
+  missing = [i['id'] for i in insts if i['id'] not in verdicts]
+  if missing:
+    raise tlc.MachineryError('MMStepTrace produced no verdict for instances %r' % missing[:5])
+  return verdicts
+
+
+def _with_count(inst):
+  inst['count'] = count_of(inst)
+  return inst
+
+
+def run_step_validation(res, insts, owner):
+  """Step-level binding of MMImplX: drift is a note; the C11 clauses are violations when owner is C11."""
+  solo = [i for i in insts if i.get('partner') is None and not i.get('is_partner') and 'events_exh' in i]
+  if owner == 'C11':
+    solo = par_mod.pmap(_with_count, solo, chunksize=1)
+  verdicts = judge_steps(res, solo, owner)
+  drift = {}
+  events = 0
+  for inst in solo:
+    v = verdicts[inst['id']]
+    events += v['facts']['events']
+    for c in v['fails']:
+      if c.startswith('STEP:'):
+        drift[c] = drift.get(c, 0) + 1
+        if len(res.notes) < 40:
+          res.note('NOTE drift instance %d: the recorded steps of exhaustive_search() are not steps of MMImplX (%s)' % (inst['id'], c))
+      elif c.startswith(owner + ':'):
+        res.violate(c.split(':', 1)[1], {'kind': 'steps', 'instance': public(inst), 'count': inst.get('count', -1),
+                                         'evaluated': v['facts']['evaluated']},
+                    'MMStepTrace rejects the recorded steps: %s (count_max_designs()=%s, designs evaluated=%s)' % (
+                        c, inst.get('count', -1), v['facts']['evaluated']))
+  res.extra['step_traces_validated'] = res.extra.get('step_traces_validated', 0) + len(solo)
+  res.extra['step_events_validated'] = res.extra.get('step_events_validated', 0) + events
+  res.extra['step_drift'] = drift
+  res.traces += len(solo)
+  if solo and events == 0:
+    raise tlc.MachineryError('no hook events were recorded: is GOOGLE_MATCHED_MARKETS_VERIF=1 set and the hook commit present?')
+  return verdicts
